@@ -136,3 +136,30 @@ pub fn size_by_params() {
     let bits = n * w;
     assert!(IntVector::size_by_params(n, w) == 4 + bits / 64 + (if bits % 64 != 0 { 1 } else { 0 }));
 }
+
+// ---- composite structures (built by the real builder / assembled from parts), thorough tier
+
+pub fn sparse(n: usize, m: usize, w: usize) {
+    let r = crate::c02::any_positions(n, m, false);
+    let v = crate::c02::build(&r, w, false);
+    let y = roundtrip(&v);
+    use simple_sds::ops::{BitVec, Select};
+    assert!(y.len() == n && y.count_ones() == m);
+    let i = sym::usize();
+    match y.select(i) { None => assert!(i >= m), Some(p) => assert!(p == r.p[i]) }
+}
+
+pub fn wavelet_matrix(n: usize, maxv: u64, fw: usize) {
+    let (wm, it) = crate::c04::load_wm(n, maxv, fw);
+    let y = roundtrip(&wm);
+    assert!(y.len() == n && y.width() == it.width);
+    let i = sym::usize();
+    if i < n { assert!(y.get(i) == it.v[i]); }
+}
+
+pub fn rl(units: &[(usize, usize)], sw: usize) {
+    let (v, runs) = crate::c03::any_rl(units, sw, true);
+    let y = roundtrip(&v);
+    use simple_sds::ops::BitVec;
+    assert!(y.len() == runs.len && y.count_ones() == runs.ones);
+}
